@@ -675,6 +675,19 @@ _s("rep_complex", r"""
                     i.in(milli(seconds)).real(), i.in(milli(seconds)).imag(), back.in(seconds).real(), back.in(seconds).imag(), int(a == seconds(C{3.0, -4.0})), sizeof(a));
 """, defs="#include <complex>\n")
 
+_s("float_inexact", r"""
+        // Inexact values are fine to print as long as the *sequence of operations* is fixed by the
+        // library (IEEE arithmetic is deterministic; no -ffast-math, no FMA contraction on the
+        // baseline x86-64 target): every configuration must print the same digits.
+        const auto c = int_pow<3>(seconds(1.3));
+        const auto d = int_pow<5>(seconds(0.3f));
+        const auto e = int_pow<-2>(seconds(7.7));
+        const auto f = int_pow<3>(seconds(2.54L));
+        std::printf("float_inexact %.17g %.9g %.17g %.21Lg | %.17g %.17g %.17g | %.17g %.9g\n", c.in(cubed(seconds)), double(d.in(pow<5>(seconds))), e.in(pow<-2>(seconds)),
+                    f.in(cubed(seconds)), (seconds(0.1) + seconds(0.2)).in(seconds), (minutes(0.1) * 3.0).in(seconds), (seconds(1.0) / 3.0).in(milli(seconds)),
+                    sqrt(squared(seconds)(2.0)).in(seconds), double(hypot(seconds(1.1f), seconds(2.2f)).in(seconds)));
+""")
+
 def names():
     return sorted(SNIPPETS)
 
